@@ -44,6 +44,14 @@ class CombiningPatternEncoder(PatternEncoderBase):
         if src[0].conns != [1]:
             # Check if there is only 1 target node and if repeated connections are allowed
             if len(tgt) == 1 and tgt[0].rep and src[0].rep:
+                # Every connection amount between the minimum and maximum is encoded as an option, so all of them
+                # should be accepted by both nodes (i.e. no gaps in the lists of accepted connection amounts)
+                min_n_conn = max(n.min_conns if n.max_inf else n.conns[0] for n in [src[0], tgt[0]])
+                max_n_conn = effective_settings.get_max_conn_matrix()[0, 0]
+                for n_conn in range(min_n_conn, max_n_conn+1):
+                    if any(not n.max_inf and n_conn not in n.conns for n in [src[0], tgt[0]]):
+                        return False
+
                 if initialize:
                     self.is_collapsed = True
                 return self.is_collapsed
